@@ -40,6 +40,9 @@ def _strategy(draw):
     if draw(st.integers(0, 9)) < 4:
         rename_assets(draw, spec)
         spec["adversarial_names"] = True
+    if draw(st.integers(0, 9)) < 4:
+        gen.rename_nodes(draw, spec)
+        spec["adversarial_names"] = True
     return spec
 
 
